@@ -617,4 +617,138 @@ theorem nearest_int {n d b : Nat} (hn : 0 < n) (hd : 0 < d) (h : posRatToBits n 
       rw [tb, tV] at this
       exact mul_right_cancel₀ (ne_of_gt hdi) this
 
+/-! ## Overflow threshold -/
+
+theorem pow2046 : (2:Nat)^2046 = 4 * 2^2044 := by
+  have : (2046:Nat) = 2044 + 2 := rfl
+  rw [this, pow_add]; ring
+theorem pow2045 : (2:Nat)^2045 = 2 * 2^2044 := by
+  have : (2045:Nat) = 2044 + 1 := rfl
+  rw [this, pow_add]; ring
+theorem ovf_low {m m0 T num g G : Nat} (hT : 0 < T) (hG : 0 < G) (hg : 0 < g) (hmle : m ≤ 2^53)
+    (hm : m0 < 2^53) (hhi : num < (m0 + 1) * T) (hp : g ≤ G) :
+    ¬ (2^52 * (4 * G) ≤ m * g) ∧ ¬ ((2^54 - 1) * G * T ≤ num * g) := by
+  have a1 : m * g ≤ 2^53 * G := Nat.mul_le_mul hmle hp
+  have b1 : (m0 + 1) * T ≤ 2^53 * T := Nat.mul_le_mul_right _ (by omega)
+  have a2 : num * g < (2^53 * T) * g := Nat.mul_lt_mul_of_pos_right (lt_of_lt_of_le hhi b1) hg
+  have a3 : (2^53 * T) * g ≤ (2^53 * T) * G := Nat.mul_le_mul_left _ hp
+  have a4 : (2^53 * T) * G = 2^53 * (G * T) := by ring
+  have a5 : (2^54 - 1) * G * T = (2^54 - 1) * (G * T) := by ring
+  have a6 : 0 < G * T := Nat.mul_pos hG hT
+  rw [a5]
+  generalize G * T = GT at *
+  generalize m * g = mg at *
+  generalize num * g = ng at *
+  generalize (2^53 * T) * g = x at *
+  constructor <;> omega
+
+theorem ovf_high {m m0 T num g G : Nat} (h52 : 2^52 ≤ m0) (hm0m : m0 ≤ m) (hlo : m0 * T ≤ num)
+    (hp : 4 * G ≤ g) :
+    (2^52 * (4 * G) ≤ m * g) ∧ ((2^54 - 1) * G * T ≤ num * g) := by
+  have a1 : 2^52 * (4 * G) ≤ m * g := Nat.mul_le_mul (by omega) hp
+  have a2 : (2^52 * T) * (4 * G) ≤ num * g :=
+    Nat.mul_le_mul (le_trans (Nat.mul_le_mul_right _ h52) hlo) hp
+  have a3 : (2^52 * T) * (4 * G) = 2^54 * (G * T) := by ring
+  have a5 : (2^54 - 1) * G * T = (2^54 - 1) * (G * T) := by ring
+  rw [a5]
+  generalize G * T = GT at *
+  generalize m * g = mg at *
+  generalize num * g = ng at *
+  constructor <;> omega
+
+
+theorem ovf_mid' {B m m0 ρ T num : Nat} (hB : B % 2 = 1) (hdm : T * m0 + ρ = num) (hρ : ρ < T)
+    (hm : m0 ≤ B)
+    (hcases : (m = m0 ∧ 2 * ρ ≤ T ∧ (2 * ρ = T → m0 % 2 = 0)) ∨
+              (m = m0 + 1 ∧ T ≤ 2 * ρ ∧ (2 * ρ = T → m0 % 2 = 1))) :
+    B + 1 ≤ m ↔ (2 * B + 1) * T ≤ 2 * num := by
+  have e : (2 * B + 1) * T = 2 * (T * B) + T := by ring
+  rw [e]
+  by_cases htop : m0 = B
+  · subst htop
+    generalize T * m0 = Y at *
+    rcases hcases with ⟨e, c1, c2⟩ | ⟨e, c1, c2⟩
+    · constructor <;> intro h <;> omega
+    · constructor <;> intro h <;> omega
+  · have h1 : T * (m0 + 1) ≤ T * B := Nat.mul_le_mul_left _ (by omega)
+    rw [Nat.mul_add] at h1
+    generalize T * m0 = X at *
+    generalize T * B = Y at *
+    have hmm : m < B + 1 := by rcases hcases with ⟨e, _⟩ | ⟨e, _⟩ <;> omega
+    constructor <;> intro h <;> omega
+
+theorem ovf_mid {m m0 ρ T num G : Nat} (hG : 0 < G) (hdm : T * m0 + ρ = num) (hρ : ρ < T)
+    (hm : m0 < 2^53)
+    (hcases : (m = m0 ∧ 2 * ρ ≤ T ∧ (2 * ρ = T → m0 % 2 = 0)) ∨
+              (m = m0 + 1 ∧ T ≤ 2 * ρ ∧ (2 * ρ = T → m0 % 2 = 1))) :
+    2^52 * (4 * G) ≤ m * (2 * G) ↔ (2^54 - 1) * G * T ≤ num * (2 * G) := by
+  have e1 : 2^52 * (4 * G) = (2^53 - 1 + 1) * (2 * G) := by ring
+  have e3 : (2^54 - 1) * G * T = ((2 * (2^53 - 1) + 1) * T) * G := by ring
+  have e4 : num * (2 * G) = (2 * num) * G := by ring
+  have h2G : 0 < 2 * G := by omega
+  rw [e1, e3, e4, Nat.mul_le_mul_right_iff h2G, Nat.mul_le_mul_right_iff hG]
+  exact ovf_mid' (by norm_num) hdm hρ (Nat.le_sub_one_of_lt hm) hcases
+
+/-- the rounded value reaches 2^1024 exactly when the scaled quotient reaches the midpoint
+    `(2^54 - 1) · 2^2044` (= 2^1024 − 2^970 in units of 2^-1074) -/
+theorem ovf_iff {num T k : Nat} (hT : 0 < T) (hk : k = 0 ∨ 2^52 ≤ num / T) (hm : num / T < 2^53) :
+    2^52 * 2^2046 ≤ rne num T * 2^k ↔ (2^54 - 1) * 2^2044 * T ≤ num * 2^k := by
+  have hdm : T * (num / T) + num % T = num := Nat.div_add_mod num T
+  have hρ : num % T < T := Nat.mod_lt _ hT
+  have hcases := rne_cases num T
+  rw [pow2046]
+  have hG := two_pow_pos' 2044
+  have hg := two_pow_pos' k
+  have hp1 : k < 2045 → 2^k ≤ 2^2044 := fun h => Nat.pow_le_pow_right (by norm_num) (by omega)
+  have hp2 : 2045 < k → 4 * 2^2044 ≤ 2^k := fun h => by
+    rw [← pow2046]; exact Nat.pow_le_pow_right (by norm_num) (by omega)
+  have hp3 : k = 2045 → 2^k = 2 * 2^2044 := fun h => by rw [h, pow2045]
+  generalize 2^2044 = G at *
+  generalize 2^k = g at *
+  generalize rne num T = m at *
+  generalize num / T = m0 at *
+  generalize num % T = ρ at *
+  have hmle : m ≤ 2^53 := by rcases hcases with ⟨e, _⟩ | ⟨e, _⟩ <;> omega
+  have hm0m : m0 ≤ m := by rcases hcases with ⟨e, _⟩ | ⟨e, _⟩ <;> omega
+  have hlo : m0 * T ≤ num := by rw [← hdm, Nat.mul_comm]; omega
+  have hhi : num < (m0 + 1) * T := by rw [← hdm, Nat.add_mul, Nat.mul_comm]; omega
+  rcases Nat.lt_trichotomy k 2045 with hlt | heq | hgt
+  · obtain ⟨n1, n2⟩ := ovf_low hT hG hg hmle hm hhi (hp1 hlt)
+    exact ⟨fun h => absurd h n1, fun h => absurd h n2⟩
+  · rw [hp3 heq]
+    exact ovf_mid hG hdm hρ hm hcases
+  · have h52 : 2^52 ≤ m0 := by omega
+    obtain ⟨y1, y2⟩ := ovf_high (T := T) (num := num) h52 hm0m hlo (hp2 hgt)
+    exact ⟨fun _ => y2, fun _ => y1⟩
+
+/-- `none` exactly from the midpoint above the largest finite double on (integer form) -/
+theorem overflow_int {n d : Nat} (hn : 0 < n) (hd : 0 < d) :
+    posRatToBits n d = none ↔ (2^54 - 1) * 2^2044 * d ≤ n * 2^1074 := by
+  obtain ⟨num, T, k, hT, hid, hk, hm, hres⟩ := result_spec hn hd
+  have key := ovf_iff (k := k) hT hk hm
+  have hiff : (2^54 - 1) * 2^2044 * d ≤ n * 2^1074 ↔ (2^54 - 1) * 2^2044 * T ≤ num * 2^k := by
+    generalize (2^54 - 1) * 2^2044 = Θ at *
+    generalize n * 2^1074 = N at *
+    generalize num * 2^k = M at *
+    constructor
+    · intro h
+      have h1 : Θ * d * T ≤ N * T := Nat.mul_le_mul_right _ h
+      rw [hid] at h1
+      have h2 : Θ * d * T = Θ * T * d := by ring
+      rw [h2] at h1
+      exact Nat.le_of_mul_le_mul_right h1 hd
+    · intro h
+      have h1 : Θ * T * d ≤ M * d := Nat.mul_le_mul_right _ h
+      rw [← hid] at h1
+      have h2 : Θ * T * d = Θ * d * T := by ring
+      rw [h2] at h1
+      exact Nat.le_of_mul_le_mul_right h1 hT
+  rw [hiff, ← key]
+  rcases hres with ⟨hnone, hge⟩ | ⟨b, hsome, _, _, _, hlt⟩
+  · exact ⟨fun _ => hge, fun _ => hnone⟩
+  · rw [hsome]
+    constructor
+    · intro h; exact absurd h (by simp)
+    · intro h; omega
+
 end KaVerif.Rounding
